@@ -39,6 +39,7 @@ func TestMain(m *testing.M) {
 			"real transaction timers of 1-5 ms with MaxRetrans 0-3; GOMAXPROCS varied 2-16; the workload is a pure function of rapid-drawn parameters, the schedule is the Go scheduler's. Each run ends in a quiescent stop (producers and SMFs paused, notifications drained and counted, timers expired) "+
 			"or an in-flight stop (Stop() immediately followed by the driver shutdown, the order pkg/app uses, at a drawn instant). Oracle: race-detector reports (halt_on_error=0) whose stacks lie in go-upf; the subprocess must not die; after Stop() the wait group of server and driver completes within a deadline "+
 			"(otherwise the goroutine dump says who is blocked where); at the quiescence point the usage-report IEs and downlink-data reports received by the SMFs equal the notifications posted for live sessions (each exactly once, retransmissions de-duplicated by sequence number). "+
+			"A quarter of the cases (and four fixed ones) are stops whose in-flight work the harness arranges: the loop is parked inside a data-plane call, 0-900 datagrams (receive queue 512) and 0-300 notifications (report queue 128) arrive, 0-600 packets have been handed up for one PDR before (its queue holds 512), Stop() is called, the call returns 0-200 ms later; the server's goroutines must finish within 15 s and every producer must come back. "+
 			"non-trivial = a run in which >= 2 producers, >= 1 transaction-timer expiry and the stop overlapped (measured by counters); distinct by parameters",
 		"absence of a race report is not absence of a race: the harness does not own the Go scheduler",
 		"producers are throttled below the report-queue capacity so that the stress does not merely rediscover C18's wedge; a run that wedges with a cycle known to C18 is counted as excluded",
@@ -69,6 +70,8 @@ type QParams struct {
 	Rcv       int `json:"rcv"`
 	Reports   int `json:"reports"`
 	ReleaseMs int `json:"release_ms"`
+	// Buffered: so many packets have been handed up for buffering for one PDR before (its queue holds 512; a 513th is dropped)
+	Buffered int `json:"buffered,omitempty"`
 }
 
 type Result struct {
@@ -652,6 +655,18 @@ func runQueued(p Params) (res Result) {
 		return
 	}
 	up := r.Sess[0].UP
+	for i := 0; i < q.Buffered; i++ {
+		st.Srv.NotifySessReport(report.SessReport{SEID: up, Reports: []report.Report{report.DLDReport{PDRID: 1, Action: 0x04, BufPkt: []byte{0x45, byte(i >> 8), byte(i)}}}})
+	}
+	if q.Buffered > 0 {
+		// the loop has taken them all?  (a loop that never comes back from one of them shows below as a stop that hangs)
+		for t1 := time.Now(); time.Since(t1) < 3*time.Second; {
+			if _, sr, _ := st.Srv.VerifQueues(); sr == 0 {
+				break
+			}
+			time.Sleep(time.Millisecond)
+		}
+	}
 	b, err := r.Build(stack.Op{Kind: "est", Peer: 0, Node: 0, Sess: -1, CP: 0x99, Rules: []stack.RuleOp{{Verb: "create", Kind: "FAR", ID: 77, Action: 2, HasAction: true}}}, 0x7777)
 	if err != nil {
 		panic(err)
@@ -662,7 +677,18 @@ func runQueued(p Params) (res Result) {
 	select {
 	case <-entered:
 	case <-time.After(10 * time.Second):
-		res.Inconclusive = "the Establishment never reached the data plane"
+		// the loop is not serving requests any more: Stop() must end it all the same
+		st.Srv.Stop()
+		done := make(chan struct{})
+		go func() { st.WaitGroup().Wait(); close(done) }()
+		select {
+		case <-done:
+			res.Inconclusive = "the Establishment never reached the data plane"
+		case <-time.After(15 * time.Second):
+			state, frame, _ := stack.LoopState()
+			res.Key = "stop-hang:" + frame
+			res.Violation = fmt.Sprintf("after %d packets had been handed up for buffering for one PDR the loop no longer served requests, and 15 s after Stop() the server's goroutines have not finished (event loop: %s at %s)", q.Buffered, state, frame)
+		}
 		return
 	}
 	// datagrams behind the busy loop: heartbeats, and now and then an Establishment (so that timers start when they are served)
@@ -920,6 +946,9 @@ func account(p Params, r Result, races []string, out string) {
 			vcore.E.NonTrivial(vcore.JSON(p))
 			vcore.E.Sample("arranged", p)
 		}
+		if p.Queued.Buffered > 512 {
+			vcore.E.Class("stop_after_a_packet_queue_overflowed")
+		}
 		if p.Queued.Reports > 128 {
 			vcore.E.Class("stop_with_producers_waiting_for_the_report_queue")
 		}
@@ -950,7 +979,7 @@ func gen(t *rapid.T) Params {
 	if rapid.IntRange(0, 3).Draw(t, "arranged") == 0 {
 		return Params{Procs: rapid.SampledFrom([]int{2, 4, 16}).Draw(t, "procs"), RetransMs: rapid.IntRange(1, 5).Draw(t, "retrans"), MaxRetrans: rapid.IntRange(0, 3).Draw(t, "maxretrans"), StopMode: "arranged",
 			Queued: &QParams{Rcv: rapid.SampledFrom([]int{0, 1, 100, 511, 512, 513, 600, 900}).Draw(t, "rcv"), Reports: rapid.SampledFrom([]int{0, 0, 5, 128, 129, 300}).Draw(t, "reports"),
-				ReleaseMs: rapid.SampledFrom([]int{0, 2, 20, 200}).Draw(t, "release_ms")}}
+				ReleaseMs: rapid.SampledFrom([]int{0, 2, 20, 200}).Draw(t, "release_ms"), Buffered: rapid.SampledFrom([]int{0, 0, 0, 511, 512, 513, 600}).Draw(t, "buffered")}}
 	}
 	return Params{
 		Seed:       rapid.Int64Range(1, 1<<40).Draw(t, "seed"),
@@ -987,7 +1016,7 @@ func TestC17(t *testing.T) {
 		return
 	}
 	// stops whose in-flight work the harness arranges: receive queue at, below and beyond its capacity
-	for _, qp := range []QParams{{Rcv: 512, ReleaseMs: 20}, {Rcv: 700, Reports: 200, ReleaseMs: 2}, {Rcv: 40, Reports: 129}} {
+	for _, qp := range []QParams{{Rcv: 512, ReleaseMs: 20}, {Rcv: 700, Reports: 200, ReleaseMs: 2}, {Rcv: 40, Reports: 129}, {Rcv: 10, Buffered: 513, ReleaseMs: 2}} {
 		qp := qp
 		p := Params{Procs: 4, RetransMs: 2, MaxRetrans: 1, StopMode: "arranged", Queued: &qp}
 		r, races, out := child(p)
